@@ -240,6 +240,8 @@ def run_P3(chk):
 
 
 MUTANTS = [
+    ('truncate_ default direction changed', 'yastn/tn/mps/_mps_obc.py', "    def truncate_(self, to='last', opts_svd=None, normalize=True) -> Number:", "    def truncate_(self, to='first', opts_svd=None, normalize=True) -> Number:", 'U8'),
+    ('factor reset only under not normalize', 'yastn/tn/mps/_mps_obc.py', '            self.factor = 1 if normalize else self.factor * nS\n', '            if not normalize:\n                self.factor = self.factor * nS\n', 'FF4'),
     ('canonize_ without the leading absorb', 'yastn/tn/mps/_mps_obc.py', '        self.absorb_central_(to=to)\n        for n in self.sweep(to=to):\n            self.orthogonalize_site_(n=n, to=to, normalize=normalize)\n            self.absorb_central_(to=to)', '        for n in self.sweep(to=to):\n            self.orthogonalize_site_(n=n, to=to, normalize=normalize)\n            self.absorb_central_(to=to)', 'P4'),
     ("factor not multiplied by nS", "yastn/tn/mps/_mps_obc.py", "            self.factor = 1 if normalize else self.factor * nS", "            self.factor = 1 if normalize else self.factor", "FF4"),
     ("plus in composition", "yastn/tn/mps/_mps_obc.py", "discarded2_local + discarded2_total - discarded2_total * discarded2_local", "discarded2_local + discarded2_total + discarded2_total * discarded2_local", "FF5"),
